@@ -25,6 +25,7 @@ pub fn cfg() -> Cfg {
         depth: 3,
         // four modules: lib/b.oal imports its sibling lib/c.oal by a path relative to itself
         max_modules: 4,
+        shadow_pct: 15,
         ..Cfg::default()
     }
 }
